@@ -1,6 +1,6 @@
 (* C16: the lemmas in the exact shape of the property theorems. *)
 From V Require Import Common.Base C16.Checked C16.Spec C16.Wtf8 C16.Wtf8Proofs C16.Vlq16 C16.Vlq16Proofs
-  C16.CssNum C16.CssNumProofs C16.Pieces C16.PiecesProofs C16.Packet C16.PacketProofs C16.CssIdent C16.CssIdentProofs C16.JsxEntities C16.JsxEntitiesProofs C16.CssLex C16.CssLexProofs C16.Globstar C16.GlobstarProofs.
+  C16.CssNum C16.CssNumProofs C16.Pieces C16.PiecesProofs C16.Packet C16.PacketProofs C16.CssIdent C16.CssIdentProofs C16.JsxEntities C16.JsxEntitiesProofs C16.CssLex C16.CssLexProofs C16.Globstar C16.GlobstarProofs C16.JsLex C16.JsLexProofs.
 
 Lemma all_bytes_bytes_ok s : all_bytes s <-> bytes_ok s.
 Proof. reflexivity. Qed.
@@ -89,3 +89,9 @@ Proof.
   rewrite Heq in E. unfold len in E. rewrite Nat2Z.id in E. rewrite skipn_all in E.
   change (utf8_decode []) with (RuneError, 0) in E. cbv beta iota in E. inversion E. reflexivity.
 Qed.
+
+Lemma total_js_string_template : total_on all_bytes run_jsstring.
+Proof. intros t Hb. apply safe_not_crash_hang. apply run_jsstring_total. exact Hb. Qed.
+
+Lemma total_js_ScanRegExp : forall idc, idc eof = false -> total_on all_bytes (run_regexp idc).
+Proof. intros idc He t Hb. apply safe_not_crash_hang. apply run_regexp_total; assumption. Qed.
